@@ -58,10 +58,31 @@ class JoinType:
 
 
 def to_single_line(text):
-    text = '\t'.join([line.strip() for line in text.split('\n')])
-    text = text.replace('\t', ' ')
-    text = ' '.join(text.split())
-    return text
+    # collapse every run of whitespace to one space and strip the ends,
+    # but keep quoted text ('...', "...", `...`) exactly as it is: 'a  b' and 'a b' are different values
+    out = []
+    quote = None
+    escaped = False
+    pending_space = False
+    for ch in text:
+        if quote is not None:
+            out.append(ch)
+            if escaped:
+                escaped = False
+            elif ch == '\\' and quote != '`':
+                escaped = True
+            elif ch == quote:
+                quote = None
+        elif ch.isspace():
+            pending_space = True
+        else:
+            if pending_space and out:
+                out.append(' ')
+            pending_space = False
+            out.append(ch)
+            if ch in ('\'', '"', '`'):
+                quote = ch
+    return ''.join(out)
 
 
 def tokens_to_string(tokens):
